@@ -25,3 +25,11 @@ func TestFinding30_LinkAndImageTextIsResolved(t *testing.T) {
 		}
 	}
 }
+
+// row 44 — C20.R10: the closing line of an HTML block
+func TestFinding44_HTMLBlockClosingLine(t *testing.T) {
+	var buf bytes.Buffer
+	if err := markdown.New(fstest.MapFS{}).RenderBytes(&buf, []byte("<script>\nfoo\n</script>\n\npara")); err != nil || !strings.Contains(buf.String(), "</script>") || !strings.Contains(buf.String(), "<p>para</p>") {
+		t.Fatalf("got %q err=%v", buf.String(), err)
+	}
+}
